@@ -262,6 +262,9 @@ func (w *Worker) runPath(prefix []Decision) {
 		}
 	case "assume", "infeasible", "exhausted":
 		w.st.pathsAssume++
+	case "abort":
+		// the exploration was stopped (budget / grace period): the run reports that the bound was not exhausted
+		w.st.pathsAssume++
 	case "cut":
 		w.st.pathsCut++
 		w.st.cut[end.why]++
